@@ -51,6 +51,10 @@ Definition s_ifnum : list N := [105; 102; 110; 117; 109].
 Definition s_ifcase : list N := [105; 102; 99; 97; 115; 101].
 Definition s_let : list N := [108; 101; 116].
 Definition s_ifodd : list N := [105; 102; 111; 100; 100].
+Definition s_value : list N := [118; 97; 108; 117; 101].
+Definition s_stepcounter : list N := [115; 116; 101; 112; 99; 111; 117; 110; 116; 101; 114].
+Definition s_setcounter : list N := [115; 101; 116; 99; 111; 117; 110; 116; 101; 114].
+Definition s_addtocounter : list N := [97; 100; 100; 116; 111; 99; 111; 117; 110; 116; 101; 114].
 Definition s_newcommand : list N := [110; 101; 119; 99; 111; 109; 109; 97; 110; 100].
 Definition s_renewcommand : list N := [114; 101; 110; 101; 119; 99; 111; 109; 109; 97; 110; 100].
 Definition s_text : list N := [35; 116; 101; 120; 116].                        (* "#text" *)
@@ -61,12 +65,14 @@ Definition starts_if (n : list N) : bool := match n with 105 :: 102 :: _ => true
 Definition E_BGROUP : N := 0.  Definition E_EGROUP : N := 1.  Definition E_DEF : N := 2.  Definition E_GDEF : N := 3.
 Definition E_RELAX : N := 4.   Definition E_ELSE : N := 5.    Definition E_FI : N := 6.   Definition E_UNREC : N := 7.
 Definition E_NEWCOMMAND : N := 9.  Definition E_RENEWCOMMAND : N := 10.  Definition E_LET : N := 11.  Definition E_NEWIF : N := 12.
+Definition E_STEPCOUNTER : N := 13.  Definition E_SETCOUNTER : N := 14.  Definition E_ADDTOCOUNTER : N := 15.
 Definition elem (cls : N) (name : list N) : tok := Tok (16 + cls) name.
 Definition is_elem (t : tok) : bool := 16 <=? tcat t.
 
 (* ---- meanings and the context ---- *)
 Inductive prim := PBgroup | PEgroup | PDef (global : bool) | PRelax | PElse | PFi | PIftrue | PIffalse | PIfnum | PIfcase
-                | PNewcommand (renew : bool) | PLet | PIfodd | PNewif.
+                | PNewcommand (renew : bool) | PLet | PIfodd | PNewif
+                | PValue | PStepcounter | PSetcounter | PAddtocounter.
 Inductive meaning :=
 | MDef (args body : list tok)        (* a class made by Context.newdef *)
 | MNew (nargs : nat) (opt : option (list tok)) (body : list tok)   (* a class made by Context.newcommand *)
@@ -74,7 +80,8 @@ Inductive meaning :=
 | MUnrec (k : list N)                (* the class generated by Context.__getitem__ on a failed lookup of k *)
 | MIf (cell : list N)                (* a NewIf class made by Context.newif; [cell] names its class attribute `state` *)
 | MIfSet (cell : list N) (b : bool)  (* the IfTrue / IfFalse class that goes with it (ifclass = that class) *)
-| MCell (b : bool).                  (* the value of a class attribute: kept in the bottom frame under a key no token can spell *)
+| MCell (b : bool)                   (* the value of a class attribute: kept in the bottom frame under a key no token can spell *)
+| MCount (z : Z).                    (* the value of a LaTeX counter (Context.counters[name].value), kept the same way *)
 
 Definition frame := list (list N * meaning).     (* a ContextItem's dict, newest binding first *)
 Record state := { input : list tok;              (* the token buffer *)
@@ -324,6 +331,10 @@ Section Invoke.
     | PLet => elem E_LET s_let
     | PIfodd => elem 8 s_ifodd
     | PNewif => elem E_NEWIF s_newif
+    | PValue => elem 8 s_value
+    | PStepcounter => elem E_STEPCOUNTER s_stepcounter
+    | PSetcounter => elem E_SETCOUNTER s_setcounter
+    | PAddtocounter => elem E_ADDTOCOUNTER s_addtocounter
     end.
 
   (* DefCommand.invoke followed by pushToken(obj) *)
@@ -406,7 +417,7 @@ Section Invoke.
             match lookup st6 name with
             | Some (MPrim PRelax) | Some (MDef _ _) | Some (MNew _ _ _) | Some (MUnrec _) | None =>
                 add_global name (MNew (Z.to_nat z) oo body) st6
-            | Some (MPrim _) | Some (MIf _) | Some (MIfSet _ _) | Some (MCell _) => st6
+            | Some (MPrim _) | Some (MIf _) | Some (MIfSet _ _) | Some (MCell _) | Some (MCount _) => st6
             end in
           Ret (push_tok (prim_elem (PNewcommand renew)) st7))
         end
@@ -469,6 +480,43 @@ Section Invoke.
         Ret (push_tok (prim_elem PNewif) st3)
       end
     end.
+  (* ---- LaTeX counters (Base/LaTeX/Numbering.py): \value{c}, \stepcounter{c}, \setcounter{c}{n}, \addtocounter{c}{n} ----
+     Context.counters is a dictionary that creates a counter (value 0) the first time a name is looked up; counters are not
+     scoped.  A counter's value is kept in the bottom frame under the key 0 0 99 name.  Arguments: `name:str` = one token or group,
+     EXPANDED and joined to a string (the Model follows plain character tokens only: expansion is the identity on them, the string
+     is their text with outer blanks stripped), `value:int` = one token or group, expanded, read back as a number behind a \relax.
+     \stepcounter also resets the counters declared "within" the stepped one: none for the names used here. *)
+  Definition ckey (name : list N) : list N := 0 :: 0 :: 99 :: name.
+  Definition counter_value (st : state) (name : list N) : Z :=
+    match findm (ckey name) (bottom st) with Some (MCount z) => z | _ => 0%Z end.
+  Definition set_counter (name : list N) (z : Z) (st : state) : state := add_global (ckey name) (MCount z) st.
+  Fixpoint strip_sp (l : list tok) : list tok := match l with t :: r => if is_space t then strip_sp r else l | [] => [] end.
+  Definition str_arg (st : state) : outcome (list N * state) :=
+    let st1 := ros st in
+    match read_token (input st1) with
+    | (None, _) => Unsupp 12
+    | (Some toks, r) =>
+      if forallb (fun t => plainchar t && ((tcat t =? CC_LETTER) || (tcat t =? CC_OTHER) || (tcat t =? CC_SPACE))) toks
+      then Ret (flat_map ttext (rev (strip_sp (rev (strip_sp toks)))), set_input st1 r)
+      else Unsupp 12
+    end.
+  Definition int_arg (g : nat) (st : state) : outcome (Z * state) :=
+    let st1 := ros st in
+    match read_token (input st1) with
+    | (None, _) => Unsupp 13
+    | (Some toks, r) =>
+      if forallb plainchar toks then
+        bind (read_integer g (set_input st1 (toks ++ Tok CC_ESCAPE s_relax :: r))) (fun rz =>
+          let '(z, stz) := rz in Ret (z, set_input stz (drop_relax (input stz))))
+      else Unsupp 13
+    end.
+  (* str(value) as Other tokens *)
+  Fixpoint digs_lsd (fuel : nat) (n : N) : list N :=
+    match fuel with O => [] | S f => (48 + n mod 10) :: (if n <? 10 then [] else digs_lsd f (n / 10)) end.
+  Definition arabic (z : Z) : list tok :=
+    let n := Z.abs_N z in
+    (if (z <? 0)%Z then [Tok CC_OTHER [45]] else []) ++ map (fun c => Tok CC_OTHER [c]) (rev (digs_lsd (S (N.to_nat (N.size n))) n)).
+
   Definition cell_value (st : state) (key : list N) : bool :=
     match findm key (bottom st) with Some (MCell b) => b | _ => false end.
 
@@ -494,7 +542,21 @@ Section Invoke.
     | MPrim PNewif => newif_invoke st
     | MIf key => if_invoke (cell_value st key) st                   (* tex.processIfContent(type(self).state); return [] *)
     | MIfSet key b => Ret (add_global key (MCell b) st)             (* type(self).ifclass.setTrue() / setFalse(); return [] *)
-    | MCell _ => Unsupp 11
+    | MCell _ | MCount _ => Unsupp 11
+    | MPrim PValue =>
+        bind (str_arg st) (fun rn => let '(name, st1) := rn in
+        Ret (set_input st1 (arabic (counter_value st1 name) ++ input st1)))
+    | MPrim PStepcounter =>
+        bind (str_arg st) (fun rn => let '(name, st1) := rn in
+        Ret (push_tok (prim_elem PStepcounter) (set_counter name (counter_value st1 name + 1) st1)))
+    | MPrim PSetcounter =>
+        bind (str_arg st) (fun rn => let '(name, st1) := rn in
+        bind (int_arg g st1) (fun rz => let '(z, st2) := rz in
+        Ret (push_tok (prim_elem PSetcounter) (set_counter name z st2))))
+    | MPrim PAddtocounter =>
+        bind (str_arg st) (fun rn => let '(name, st1) := rn in
+        bind (int_arg g st1) (fun rz => let '(z, st2) := rz in
+        Ret (push_tok (prim_elem PAddtocounter) (set_counter name (counter_value st2 name + z) st2))))
     | MPrim PBgroup => Ret (push_tok (prim_elem PBgroup) (push_frame st))
     | MPrim PEgroup => Ret (push_tok (prim_elem PEgroup) (pop_frame st))
     | MPrim PRelax => Ret (push_tok (prim_elem PRelax) st)
@@ -574,7 +636,8 @@ Definition base_frame : frame :=
   [ (s_bgroup, MPrim PBgroup); (s_egroup, MPrim PEgroup); (s_def, MPrim (PDef false)); (s_gdef, MPrim (PDef true));
     (s_relax, MPrim PRelax); (s_else, MPrim PElse); (s_fi, MPrim PFi);
     (s_iftrue, MPrim PIftrue); (s_iffalse, MPrim PIffalse); (s_ifnum, MPrim PIfnum); (s_ifcase, MPrim PIfcase);
-    (s_newcommand, MPrim (PNewcommand false)); (s_renewcommand, MPrim (PNewcommand true)); (s_let, MPrim PLet); (s_ifodd, MPrim PIfodd); (s_newif, MPrim PNewif) ].
+    (s_newcommand, MPrim (PNewcommand false)); (s_renewcommand, MPrim (PNewcommand true)); (s_let, MPrim PLet); (s_ifodd, MPrim PIfodd); (s_newif, MPrim PNewif);
+    (s_value, MPrim PValue); (s_stepcounter, MPrim PStepcounter); (s_setcounter, MPrim PSetcounter); (s_addtocounter, MPrim PAddtocounter) ].
 Definition init (i : list tok) : state := {| input := i; ups := []; bottom := base_frame |}.
 
 (* ---- wire ---- *)
@@ -588,6 +651,7 @@ Definition meaning_val (m : option meaning) : val :=
   | Some (MIf _) => VL [VI 5]
   | Some (MIfSet _ b) => VL [VI 6; ofB b]
   | Some (MCell _) => VL [VI 7]
+  | Some (MCount _) => VL [VI 7]
   | None => VL [VI 3]
   end.
 Definition names_of (v : val) : option (list (list N)) := match v with VL l => mapM getNs l | _ => None end.
@@ -595,6 +659,23 @@ Definition names_of (v : val) : option (list (list N)) := match v with VL l => m
 (* case: ((tok ...) (name ...)) -> (0 (yielded tokens) depth (meaning of each name at the end)) | crash | fuel | (-5 k) *)
 Definition run_case (v : val) : val :=
   match v with
+  | VL [ts; ns; cs] =>
+    (* with counter names: their final values are observed too *)
+    match toks_of ts, names_of ns, names_of cs with
+    | Some ts, Some ns, Some cs =>
+      match run (Nat.mul 100 100) (init ts) [] with
+      | Done st out => VL [VI 0; toks_val out; ofNat (S (length (ups st)));
+                            VL (map (fun k => match lookup st k with
+                                              | Some (MIf key) => VL [VI 5; ofB (cell_value st key)]
+                                              | m => meaning_val m
+                                              end) ns);
+                            VL (map (fun c => VI (counter_value st c)) cs)]
+      | Crashed k => v_crash k
+      | OutOfFuel => v_outoffuel
+      | Unsupported k => VL [VI (-5); VI k]
+      end
+    | _, _, _ => v_bad_input
+    end
   | VL [ts; ns] =>
     match toks_of ts, names_of ns with
     | Some ts, Some ns =>
